@@ -860,9 +860,62 @@ def check_C04(tier):
                                   "(recovered) and for ConstExpr; a visitor that panics is user code outside Compile's contract"])
 
 
-CHECKS = {"C04": check_C04, "C03": check_C03, "C13": check_C13, "C12": check_C12, "C11": check_C11, "C17": check_C17, "C09": check_C09, "C10": check_C10, "C01": check_C01, "C02": check_C02, "C05": check_C05, "C06": check_C06, "C07": check_C07,
+# ---------------------------------------------------------------------------
+# C16: member resolution (Resolve.tla) against generated Go environment types
+
+def names_cfg(maxmembers):
+    return vf.cfg_text({"MaxMembers": maxmembers, "NamesEmit": "cases"}, invariants=("ShadowingIsShallowest", "EmitNames"))
+
+
+def names_stage(name, maxmembers):
+    cfg = names_cfg(maxmembers)
+
+    def f(acc, binary, s):
+        import names
+        with vf.Scratch("C16-" + name) as d:
+            cases = os.path.join(d, "cases.ndjson")
+            st = vf.run_tlc("MC_Names", cfg, out_cases=cases, workers=1, timeout=1800, name="C16-" + name)
+            acc.add_tlc(name, st)
+            sm, fs = names.run(cases, d)
+            sm["samples"] = [json.loads(open(cases).readline())]
+            acc.add_summary(sm)
+            for x in fs:
+                x["prop"] = "C16"
+                x["stage"] = name
+            acc.failures += fs
+            vf.log("[C16] stage %-22s tlc: %d states %d environment types (%ss%s)  real executions: %d  failures: %d" % (
+                name, st.get("distinct", 0), st.get("cases", 0), st.get("wall_s"), ", cached" if st.get("cached") else "",
+                sm["executions"], sm["failures"]))
+    return Stage(name, "MC_Names", cfg, func=f)
+
+
+def stages_C16(tier):
+    return [names_stage("types-%d" % (3 if tier == "quick" else 4), 3 if tier == "quick" else 4)]
+
+
+C16_RULE = ("TLC (MC_Names.tla over Resolve.tla): every legal struct type of up to 3 (thorough: 4) members, in every order, "
+            "drawn from own fields (exported and unexported; int and string under the same name) and six inner struct types "
+            "embedded by value or by pointer (with own fields, value- and pointer-receiver methods, embeddings to depth 3), "
+            "each with a method on a value receiver, on a pointer receiver, or none; for each type and each of 8 names Go's "
+            "selector rule (Resolve!Lookup: shallowest depth, ambiguity, method sets) gives what the name denotes; "
+            "ShadowingIsShallowest is checked on every type. The types are written out as Go declarations, built against "
+            "/repo and populated; for each type passed by value and by pointer, and nested as a member X of another "
+            "environment: the specification's verdict must be Go's own (reflect; else infrastructure error), a name the "
+            "checker accepts (as identifier, call, X.name, X.name()) must resolve at run time to a value assignable to "
+            "the checker's type, an exported member Go resolves must be accepted, and docgen.CreateDoc must list exactly "
+            "the accepted names")
+
+
+def check_C16(tier):
+    return run_check("C16", tier, stages_C16(tier), C16_RULE,
+                     assumptions=["reflect.Type.FieldByName / MethodByName implement Go's selector rule (they are compared "
+                                  "with Resolve!Lookup on every name)", "map environments are not generated (struct "
+                                  "environments only)"])
+
+
+CHECKS = {"C16": check_C16, "C04": check_C04, "C03": check_C03, "C13": check_C13, "C12": check_C12, "C11": check_C11, "C17": check_C17, "C09": check_C09, "C10": check_C10, "C01": check_C01, "C02": check_C02, "C05": check_C05, "C06": check_C06, "C07": check_C07,
           "C14": check_C14, "C15": check_C15, "C18": check_C18}
-STAGES = {"C04": stages_C04, "C03": stages_C03, "C13": stages_C13, "C12": stages_C12, "C11": stages_C11, "C17": stages_C17, "C09": stages_C09, "C10": stages_C10, "C01": stages_C01, "C02": stages_C02, "C05": stages_C05, "C06": stages_C06, "C07": stages_C07,
+STAGES = {"C16": stages_C16, "C04": stages_C04, "C03": stages_C03, "C13": stages_C13, "C12": stages_C12, "C11": stages_C11, "C17": stages_C17, "C09": stages_C09, "C10": stages_C10, "C01": stages_C01, "C02": stages_C02, "C05": stages_C05, "C06": stages_C06, "C07": stages_C07,
           "C14": stages_C14, "C15": stages_C15, "C18": stages_C18}
 
 
